@@ -13,7 +13,7 @@ ROLE_PATTERNS = [
     ("parameters", r"^new_default_gate_bootstrapping_parameters$"),
     ("generation", r"(KeyGen$|SymEncrypt|EncryptZero$|EncryptB$|[cC]reate.*Key|CreateBootstrappingKey|"
                    r"^new_random_|^gaussian32$|Uniform$|setSeed$|createKeySwitchKey|CreateKeySwitchKey|"
-                   r"^new_tfheGateBootstrappingSecretKeySet$|^new_random_gate_bootstrapping_secret_keyset$)"),
+                   r"ExtractKey$|^new_tfheGateBootstrappingSecretKeySet$|^new_random_gate_bootstrapping_secret_keyset$)"),
     ("lifecycle", r"^(alloc|free|init|destroy|new|delete)_"),
 ]
 
